@@ -128,10 +128,33 @@ def judge_flag(case):
     return None
 
 
+def list_paths(n, prefix=(), outer=0, protected_only=False):
+    """paths of lists; with protected_only: lists holding an element of HIGHER priority than the list itself (D5)"""
+    out = set()
+    p = oracles.tag_priority(n[1])
+    here = p if p is not None else outer
+    if n[0] == 'seq':
+        prot = any((oracles.tag_priority(c[1]) or here) > here for c in n[2])
+        if prot or not protected_only:
+            out.add(prefix)
+        for i, c in enumerate(n[2]):
+            out |= list_paths(c, prefix + (i,), here, protected_only)
+    elif n[0] == 'map':
+        for kk, c in n[2]:
+            out |= list_paths(c, prefix + (str(kk),), here, protected_only)
+    return out
+
+
 def known_sig(k, failing):
     """D18 seen through idempotence: the repeated document has a replacing container holding an element of lower priority than the container"""
     if k['id'] == 'D18' and 'repeating the last document' in failing['failure'].get('reason', ''):
         return list_with_lower_priority_element(failing['input'][-1])
+    if k['id'] == 'D5' and 'repeating the last document' in failing['failure'].get('reason', ''):
+        docs = failing['input']
+        older = set()
+        for d in docs[:-1]:
+            older |= list_paths(d, protected_only=True)
+        return bool(older & list_paths(docs[-1]))
     return False
 
 
@@ -155,6 +178,8 @@ def run(rep, tier, rng):
              [('map', None, [('a', ('sc', None, '1'))]), ('map', '!del', [('b', ('sc', None, '2'))])]]
     hist.append([('map', None, [('c', ('seq', None, [('sc', None, '2')]))]),
                  ('map', None, [('c', ('map', '!del', [('c', ('sc', None, '1')), (0, ('sc', '!weak', 'null'))]))])])     # D18 seen through idempotence
+    hist.append([('map', None, [('l', ('seq', None, [('sc', None, '1'), ('map', '!force', [('r', ('sc', None, '1'))])]))]),
+                 ('map', None, [('l', ('seq', None, [('map', '!merge', [('b', ('sc', None, '0'))]), ('sc', None, '5')]))])])     # D5 seen through idempotence
     show = lambda docs: [gen.render(d) for d in docs]
     for docs in hist:
         tags = sum(len(gen.tag_hist(d)) for d in docs)
